@@ -25,7 +25,13 @@ def lex_impl(chunks, with_code=True):
     toks = []
     for t in l.tokens:
         row = {'cls': type(t).__name__, 'data': bytes(t._data), 'line': t._lineno, 'col': t._charno,
-               'quote': getattr(t, '_quote', None), 'ml': getattr(t, '_multiline_quote', None), 'value': None}
+               'quote': getattr(t, '_quote', None), 'ml': getattr(t, '_multiline_quote', None), 'value': None,
+               'sval': None}
+        if isinstance(t, lexer.TokString):
+            try:
+                row['sval'] = bytes(t.value)
+            except Exception as e:  # noqa
+                row['sval'] = 'ERR ' + lib.exc_name(e)
         if with_code:
             try:
                 row['code'] = bytes(t.code)
@@ -46,16 +52,18 @@ def lex_impl(chunks, with_code=True):
 
 
 def enc_itoks(toks):
-    """token list in the monitor runners' format: kindcode:data:line:col:quote:ml:value"""
+    """token list in the monitor runners' format: kindcode:data:line:col:quote:ml:value:strvalue"""
     if not toks:
         return '.'
     out = []
     for t in toks:
         v = t['value']
         vs = '%s/%s' % (hex(v.numerator), hex(v.denominator)) if isinstance(v, fractions.Fraction) else '_'
-        out.append('%d:%s:%d:%d:%s:%s:%s' % (
+        sv = t.get('sval')
+        out.append('%d:%s:%d:%d:%s:%s:%s:%s' % (
             KIND_CODE.get(t['cls'], 99), lib.hx(t['data']), t['line'], t['col'],
-            lib.hx(t['quote'] or b''), 'N' if t['ml'] is None else 'S' + lib.hx(t['ml']), vs))
+            lib.hx(t['quote'] or b''), 'N' if t['ml'] is None else 'S' + lib.hx(t['ml']), vs,
+            lib.hx(sv) if isinstance(sv, bytes) else '-'))
     return ';'.join(out)
 
 
@@ -65,7 +73,7 @@ def parse_model_toks(s):
         return []
     out = []
     for ts in s.split(';'):
-        cls, data, line, col, quote, ml, code, value, ext = ts.split(':')
+        cls, data, line, col, quote, ml, code, value, ext, sval = ts.split(':')
         if value == '_':
             v = None
         elif value.startswith('E'):
@@ -75,7 +83,8 @@ def parse_model_toks(s):
             v = fractions.Fraction(int(n, 0), int(d, 0))
         out.append({'cls': cls, 'data': lib.unhx(data), 'line': int(line), 'col': int(col),
                     'quote': lib.unhx(quote) or None, 'ml': None if ml == 'N' else lib.unhx(ml[1:]),
-                    'code': lib.unhx(code), 'value': v, 'ext': lib.unhx(ext)})
+                    'code': lib.unhx(code), 'value': v, 'ext': lib.unhx(ext),
+                    'sval': lib.unhx(sval) if cls == 'TokString' else None})
     return out
 
 
@@ -107,7 +116,7 @@ def compare_lex(impl, model_line, check_extent_of=None):
     if len(mt) != len(impl['toks']):
         return 'token count: implementation %d, model %d' % (len(impl['toks']), len(mt))
     for k, (a, b) in enumerate(zip(impl['toks'], mt)):
-        for f in ('cls', 'data', 'line', 'col', 'quote', 'ml', 'code'):
+        for f in ('cls', 'data', 'line', 'col', 'quote', 'ml', 'code', 'sval'):
             if f in a and a[f] != b[f]:
                 return 'token %d field %s: implementation %r, model %r' % (k, f, a[f], b[f])
         if not value_agrees(a['value'], b['value']):
